@@ -480,10 +480,13 @@ func buildRoutesAllowlist(opts *options.Options) ([]allowedRoute, error) {
 		var (
 			method string
 			path   string
-			negate = strings.Contains(methodPath, "!=")
 		)
 
-		parts := regexp.MustCompile("!?=").Split(methodPath, 2)
+		// The rule is negated only if the separator that splits the method
+		// from the path is `!=`; a later `!=` belongs to the path regex.
+		separator := regexp.MustCompile("!?=")
+		negate := separator.FindString(methodPath) == "!="
+		parts := separator.Split(methodPath, 2)
 		if len(parts) == 1 {
 			method = ""
 			path = parts[0]
